@@ -499,7 +499,8 @@ def strat_sel(env, cfg):
     def s(draw):
         return dict(op=draw(st.sampled_from(["ep_param_set", "bn_div", "bn_mod", "bn_mod_inv", "bn_gcd_ext_lehme",
                                              "bn_smb_leg", "bn_smb_jac", "bn_srt", "bn_mxp_slide", "bn_mod_pre_monty",
-                                             "bn_get_bit", "bn_rand_mod", "fp_inv", "fp_exp_slide"])),
+                                             "bn_get_bit", "bn_rand_mod", "fp_inv", "fp_exp_slide", "bn_div_dig",
+                                             "bn_div_rem_dig"])),
                     v=draw(st.sampled_from([0, -1, -7, 1, 2, 4, 1 << 64, (1 << 255) + 1, 200, 1000, -(1 << 70)])),
                     a=draw(st.sampled_from([0, 1, -1, 5, -5, (1 << 200) + 1, -(1 << 130)])),
                     unprot=draw(st.booleans()), poison=draw(st.integers(0, 255)), seed=draw(st.binary(min_size=4, max_size=4)))
@@ -525,6 +526,14 @@ def run_sel(env, cfg, case):
         sc, sa, sb = p.bn(1), p.bn(a), p.bn(v)
         p.call(op, sc, sa, sb)
         must_error = True if v == 0 else (None if (op == "bn_mod" and v < 0) else False)
+    elif op in ("bn_div_dig", "bn_div_rem_dig"):
+        # header: "@throw ERR_NO_VALID - if the divisor is zero"
+        d = 0 if v in (0, 1 << 64) else (abs(v) & ((1 << info(env, cfg)["W"]) - 1)) or 1
+        if op == "bn_div_dig":
+            p.call(op, p.bn(1), p.bn(a), d)
+        else:
+            p.call(op, p.bn(1), p.bn(a), d, 1)
+        must_error = d == 0
     elif op == "bn_mod_inv":
         import math
         sc, sa, sb = p.bn(1), p.bn(a), p.bn(v)
